@@ -53,6 +53,21 @@ Section FP.
     - rewrite IH. ring.
   Qed.
 
+  (** the generated ranges and index expressions in canonical form ([ring] / [lia] absorb re-associated products, hoisted
+      sub-expressions and renamed locals of the source) *)
+  Lemma fpl_ranges nb xs n ip b x y :
+    (fpl_b_lo nb xs n ip = 0 /\ fpl_b_hi nb xs n ip = nb /\ fpl_x_lo nb xs n ip b = 0 /\ fpl_x_hi nb xs n ip b = xs /\
+     fpl_y_lo nb xs n ip b x = 0 /\ fpl_y_hi nb xs n ip b x = n /\ fpl_j_lo nb xs n ip b x y = 0 /\ fpl_j_hi nb xs n ip b x y = ip)%Z.
+  Proof.
+    unfold fpl_b_lo, fpl_b_hi, fpl_x_lo, fpl_x_hi, fpl_y_lo, fpl_y_hi, fpl_j_lo, fpl_j_hi. repeat split; ring.
+  Qed.
+  Lemma fpl_hinfo_eq nb xs n ip b x y j : (fpl_hinfo nb xs n ip b x y j = y * ip + j)%Z.
+  Proof. unfold fpl_hinfo. ring. Qed.
+  Lemma fpl_read_eq nb xs n ip b x y j h : (fpl_read nb xs n ip b x y j h = b * xs * n + x * n + h)%Z.
+  Proof. unfold fpl_read. ring. Qed.
+  Lemma fpl_write_eq nb xs n ip b x y : (fpl_write nb xs n ip b x y = b * xs * n + x * n + y)%Z.
+  Proof. unfold fpl_write. ring. Qed.
+
   (** the accumulator of cell (b, x, y): the generated ranges of the j loop are [0, ip), its terms read the input
       column (b, x) at the table's source rows: it is [fp_apply] at the flat index the cell is written to *)
   Lemma fpl_value_is_fp_apply nb xs n ip H D b x y :
@@ -60,7 +75,9 @@ Section FP.
     fpl_value (K:=K) nb xs n ip H D b x y = fp_apply (K:=K) n xs ip H D (fpl_write nb xs n ip b x y).
   Proof.
     intros Hn Hxs Hb Hx Hy.
-    unfold fpl_value, zfor, fpl_j_lo, fpl_j_hi, fp_apply, fp_col_out, fpl_write, fpl_hinfo, fpl_read.
+    destruct (fpl_ranges nb xs n ip b x y) as (_ & _ & _ & _ & _ & _ & Ejl & Ejh).
+    unfold fpl_value, zfor. rewrite Ejl, Ejh, fpl_write_eq.
+    unfold fp_apply, fp_col_out.
     set (i := (b * xs * n + x * n + y)%Z).
     assert (Ei : i = ((b * xs + x) * n + y)%Z) by (unfold i; ring).
     assert (E1 : (i / n = b * xs + x)%Z).
@@ -75,7 +92,13 @@ Section FP.
     cbv zeta. rewrite E2, E3, E4.
     replace (ip - 0)%Z with ip by lia.
     rewrite map_ext with (g := fun k : Z => k) by (intros; lia). rewrite map_id.
-    rewrite (fold_add_fsum (fun j => D (b * xs * n + x * n + fst (H (y * ip + j)))%Z * snd (H (y * ip + j)%Z))).
+    change (fold_left (fun (t : K) (k : Z) => t + D (fpl_read nb xs n ip b x y k (fst (H (fpl_hinfo nb xs n ip b x y k)))) *
+                                              snd (H (fpl_hinfo nb xs n ip b x y k))) (zrange ip) 0 =
+            fsum (map (fun j : Z => D (b * xs * n + x * n + fst (H (y * ip + j)))%Z * snd (H (y * ip + j)%Z)) (zrange ip))).
+    rewrite (fold_add_fsum (fun k => D (fpl_read nb xs n ip b x y k (fst (H (fpl_hinfo nb xs n ip b x y k)))) *
+                                     snd (H (fpl_hinfo nb xs n ip b x y k)))).
+    rewrite (map_ext _ (fun j : Z => D (b * xs * n + x * n + fst (H (y * ip + j)))%Z * snd (H (y * ip + j)%Z)))
+      by (intros j; rewrite fpl_hinfo_eq, fpl_read_eq; reflexivity).
     ring.
   Qed.
 
@@ -106,31 +129,34 @@ Section FP.
       zfor (fpl_x_lo nb xs n ip b) (fpl_x_hi nb xs n ip b) (fun x =>
         zfor (fpl_y_lo nb xs n ip b x) (fpl_y_hi nb xs n ip b x) (fun y out =>
           upd out (fpl_write nb xs n ip b x y) (fpl_value (K:=K) nb xs n ip H D b x y)))) out0)).
-    { change nb with (fpl_b_hi nb xs n ip) at 1. apply zfor_inv.
-      - unfold fpl_b_lo, fpl_b_hi. lia.
-      - unfold Pb, fpl_b_lo. intros i. replace (0 * xs * n)%Z with 0%Z by ring.
+    { destruct (fpl_ranges nb xs n ip 0 0 0) as (Ebl & Ebh & _).
+      rewrite <- Ebh at 1. apply zfor_inv.
+      - rewrite Ebl, Ebh. lia.
+      - unfold Pb. rewrite Ebl. intros i. replace (0 * xs * n)%Z with 0%Z by ring.
         replace ((0 <=? i) && (i <? 0))%bool with false; [reflexivity|].
         destruct (Z.leb_spec 0 i), (Z.ltb_spec i 0); try reflexivity; lia.
-      - intros b out Hb Hout. unfold fpl_b_lo, fpl_b_hi in Hb. unfold Pb in *.
+      - intros b out Hb Hout. rewrite Ebl, Ebh in Hb. unfold Pb in *.
+        destruct (fpl_ranges nb xs n ip b 0 0) as (_ & _ & Exl & Exh & _).
         (* column loop *)
         pose (Px := fun (x : Z) (o : Z -> K) => swept F out0 (b * xs * n + x * n) o).
         assert (Gx : Px xs (zfor (fpl_x_lo nb xs n ip b) (fpl_x_hi nb xs n ip b) (fun x =>
           zfor (fpl_y_lo nb xs n ip b x) (fpl_y_hi nb xs n ip b x) (fun y o =>
             upd o (fpl_write nb xs n ip b x y) (fpl_value (K:=K) nb xs n ip H D b x y))) out)).
-        { change xs with (fpl_x_hi nb xs n ip b) at 1. apply zfor_inv.
-          - unfold fpl_x_lo, fpl_x_hi. lia.
-          - unfold Px, fpl_x_lo. replace (b * xs * n + 0 * n)%Z with (b * xs * n)%Z by ring. exact Hout.
-          - intros x o Hx Ho. unfold fpl_x_lo, fpl_x_hi in Hx. unfold Px in *.
+        { rewrite <- Exh at 1. apply zfor_inv.
+          - rewrite Exl, Exh. lia.
+          - unfold Px. rewrite Exl. replace (b * xs * n + 0 * n)%Z with (b * xs * n)%Z by ring. exact Hout.
+          - intros x o Hx Ho. rewrite Exl, Exh in Hx. unfold Px in *.
+            destruct (fpl_ranges nb xs n ip b x 0) as (_ & _ & _ & _ & Eyl & Eyh & _).
             (* row loop *)
             pose (Py := fun (y : Z) (q : Z -> K) => swept F out0 (b * xs * n + x * n + y) q).
             assert (Gy : Py n (zfor (fpl_y_lo nb xs n ip b x) (fpl_y_hi nb xs n ip b x) (fun y q =>
               upd q (fpl_write nb xs n ip b x y) (fpl_value (K:=K) nb xs n ip H D b x y)) o)).
-            { change n with (fpl_y_hi nb xs n ip b x) at 1. apply zfor_inv.
-              - unfold fpl_y_lo, fpl_y_hi. lia.
-              - unfold Py, fpl_y_lo. replace (b * xs * n + x * n + 0)%Z with (b * xs * n + x * n)%Z by ring. exact Ho.
-              - intros y q Hy Hq. unfold fpl_y_lo, fpl_y_hi in Hy. unfold Py in *.
+            { rewrite <- Eyh at 1. apply zfor_inv.
+              - rewrite Eyl, Eyh. lia.
+              - unfold Py. rewrite Eyl. replace (b * xs * n + x * n + 0)%Z with (b * xs * n + x * n)%Z by ring. exact Ho.
+              - intros y q Hy Hq. rewrite Eyl, Eyh in Hy. unfold Py in *.
                 replace (b * xs * n + x * n + (y + 1))%Z with (b * xs * n + x * n + y + 1)%Z by ring.
-                assert (Ew : fpl_write nb xs n ip b x y = (b * xs * n + x * n + y)%Z) by (unfold fpl_write; ring).
+                assert (Ew : fpl_write nb xs n ip b x y = (b * xs * n + x * n + y)%Z) by apply fpl_write_eq.
                 rewrite Ew. apply swept_step; [nia | exact Hq |].
                 rewrite <- Ew. unfold F. apply fpl_value_is_fp_apply; lia. }
             unfold Py in Gy. replace (b * xs * n + (x + 1) * n)%Z with (b * xs * n + x * n + n)%Z by ring. exact Gy. }
